@@ -67,7 +67,11 @@ func (s *KeyBuilder) Compile(template string) (*CompiledKeyBuilder, *CompilerErr
 
 		if r == '\\' { // Escape
 			i++
-			sb.WriteRune(unescape(runes[i]))
+			if i < len(runes) {
+				sb.WriteRune(unescape(runes[i]))
+			} else { // nothing left to escape: a trailing backslash is literal
+				sb.WriteRune(r)
+			}
 		} else if r == '{' {
 			if inStatement == 0 { // starting a new token
 				if sb.Len() > 0 {
